@@ -433,6 +433,45 @@ fn main() {
             print!("{out}");
             checked = total;
         }
+        "leanitems" => {
+            // Extend<LeanString> / FromIterator<LeanString> with items that own heap buffers (the runner's items own none):
+            // the text is String's; a receiver that owns enough room neither moves nor loses capacity (C11); the items'
+            // other handles are untouched (C02)
+            use lean_string::LeanString;
+            let texts = ["", "a", "0123456789abcdef", "0123456789abcdefg", "a heap piece that is longer than the inline limit", "é€𝄞 multi-byte piece beyond sixteen bytes"];
+            let mut total = 0u64;
+            for cap in [0usize, 1, 16, 17, 40, 64, 100, 300, 1000, 5000] {
+                for prefill in ["", "x", "0123456789abcdefXYZ"] {
+                    for cleared in [false, true] {
+                        for k1 in 0..texts.len() { for k2 in 0..texts.len() { for shared in [false, true] {
+                            let mut recv = LeanString::with_capacity(cap);
+                            recv.push_str(prefill);
+                            if cleared { recv.clear(); }
+                            let mut model = String::from(recv.as_str());
+                            let items: Vec<LeanString> = [texts[k1], texts[k2]].iter().map(|t| LeanString::from(*t)).collect();
+                            let keep: Vec<LeanString> = if shared { items.clone() } else { Vec::new() };
+                            let need = model.len() + texts[k1].len() + texts[k2].len();
+                            let owns_room = recv.is_heap_allocated() && recv.capacity() >= need;
+                            let (p0, c0) = (recv.as_ptr(), recv.capacity());
+                            recv.extend(items);
+                            model.push_str(texts[k1]); model.push_str(texts[k2]);
+                            let what = format!("with_capacity({cap}) + {:?}{} extended by LeanString items {:?}, {:?}{}", prefill, if cleared { " cleared" } else { "" }, texts[k1], texts[k2], if shared { " (shared)" } else { "" });
+                            if recv.as_str() != model { report(format!("MISMATCH leanitems text: {what}: got {:?}", recv.as_str())); }
+                            if owns_room && (recv.as_ptr() != p0 || recv.capacity() != c0) {
+                                report(format!("MISMATCH leanitems within-capacity: {what}: capacity {c0} -> {}, moved: {}", recv.capacity(), recv.as_ptr() != p0));
+                            }
+                            for (h, t) in keep.iter().zip([texts[k1], texts[k2]]) {
+                                if h.as_str() != t { report(format!("MISMATCH leanitems other handle changed: {what}")); }
+                            }
+                            let col: LeanString = [texts[k1], texts[k2]].iter().map(|t| LeanString::from(*t)).collect();
+                            if col.as_str() != [texts[k1], texts[k2]].concat() { report(format!("MISMATCH leanitems collect: {:?}, {:?}", texts[k1], texts[k2])); }
+                            total += 1;
+                        }}}
+                    }
+                }
+            }
+            checked = total;
+        }
         "utf8one" => {
             // one input (hex, or - for the empty one): the replay of a sweep mismatch or crash
             let h = if a[2] == "-" { "" } else { a[2].as_str() };
@@ -546,7 +585,7 @@ fn main() {
             checked = total;
         }
         _ => {
-            eprintln!("usage: sweep int|f32|f64|utf8|utf16 ...");
+            eprintln!("usage: sweep int|f32|f64|utf8|utf16|leanitems ...");
             std::process::exit(2);
         }
     }
